@@ -115,7 +115,7 @@ def holds(f, val):
     return any(holds(x, val) for x in f[1])
 
 
-def equivalent(a, b, max_atoms=12, same=None):
+def equivalent(a, b, max_atoms=12, same=None, infeasible=None):
     """a, b: lists of (guard string, outcome signature).  Returns (True, None) when for every valuation of the
     atoms both select the same outcome; (False, witness) otherwise; (None, reason) when undecidable here.
     `same(confirmed outcome, current outcome, valuation)` may declare two different outcomes equal under a valuation
@@ -130,6 +130,8 @@ def equivalent(a, b, max_atoms=12, same=None):
         return None, f'{len(at)} atomic conditions'
     for bits in itertools.product((False, True), repeat=len(at)):
         val = dict(zip(at, bits))
+        if infeasible is not None and infeasible(val):
+            continue            # the caller knows a relation between the atoms that excludes this valuation
         sa = [o for f, o in fa if holds(f, val)]
         sb = [o for f, o in fb if holds(f, val)]
         if not sa and not sb:
